@@ -453,7 +453,7 @@ mismatch between values and axes""".format(inferred, self.values.shape)
     # Internal constructor, useful for subclassing
     #
     @classmethod
-    def _constructor(cls, values, axes, **metadata):
+    def _constructor(cls, *args, **metadata):
         """ Internal API for the constructor: check whether a pre-defined class exists
 
         values        : array-like
@@ -469,7 +469,13 @@ mismatch between values and axes""".format(inferred, self.values.shape)
         #TODO: use the __new__ operator to bypass all checkings in __init__
         # just check consistency between axes and values shape
 
-        return cls(values, axes, **metadata)
+        # the metadata is set on the new object instead of being passed on as keyword arguments: a key may
+        # well be the name of a parameter ('values', 'axes', 'dims', 'labels', 'dtype', 'copy', '_indexing' ...)
+        values = args[0]
+        axes = args[1] if len(args) > 1 else metadata.pop('axes', None)
+        obj = cls(values, axes)
+        obj.attrs.update(metadata)
+        return obj
 
     def copy(self, shallow=False):
         """ copy of the object and update arguments
